@@ -135,10 +135,14 @@ Ltac b_start :=
     intros m s' HS' Em En Hm; transport Hm s; clear HS Hm
   end.
 
+(* the kind a marker is completed with is never TOMBSTONE *)
+Ltac ktomb :=
+  solve [ repeat match goal with |- context [match ?x with _ => _ end] => destruct x end;
+          let Hk := fresh in intro Hk; vm_compute in Hk; discriminate Hk ].
 Ltac b_complete :=
   match goal with |- WB (complete ?m _) _ ?s =>
     let HS := st_of s in
-    first [ eapply WB_complete; [exact HS|in_own|] | eapply WB_complete_pre; [exact HS|] ];
+    first [ eapply WB_complete; [ktomb|exact HS|in_own|] | eapply WB_complete_pre; [ktomb|exact HS|] ];
     let s' := fresh "s" in let HS' := fresh "HS" in let Hv := fresh "Hv" in
     let Hn := fresh "Hn" in let Hm := fresh "Hm" in
     intros s' HS' Hv Hn Hm; fix_own HS'; transport Hm s; clear HS Hm
